@@ -30,6 +30,7 @@ let parse_decision (s : string) : M.decision =
   match s with
   | "ok" | "" -> M.DOk
   | "drop" -> M.DDrop
+  | _ when String.length s >= 4 && String.sub s 0 4 = "raw=" -> M.DDrop  (* a malformed reply, then the connection is closed *)
   | _ ->
     let code, text = match String.index_opt s ':' with
       | Some i -> String.sub s 0 i, String.sub s (i + 1) (String.length s - i - 1)
